@@ -11,12 +11,15 @@ H = "harness/E4_equiv.py"
 
 
 def jobs_for(ctx: Ctx, kind: str, n: int, batch: int, timeout: float, region: str | None = None, key: str | None = None,
-             fuel: int = 80, total: int | None = None, harness: str = H, fn: str = "h_equiv", upto: int | None = None):
+             fuel: int = 80, total: int | None = None, harness: str = H, fn: str = "h_equiv", upto: int | None = None, single_upto: int = 0):
+    """`single_upto`: the first programs of a corpus are the hand-written heavy ones (loops over symbolic ranges, structs, arrays): each gets a job of its own"""
     total = total if total is not None else n
     jobs = []
     idx = list(range(total if upto is None else min(total, upto)))
-    for b in range(0, len(idx), batch):
-        chunk = idx[b:b + batch]
+    chunks = [[i] for i in idx if i < single_upto]
+    rest = [i for i in idx if i >= single_upto]
+    chunks += [rest[b:b + batch] for b in range(0, len(rest), batch)]
+    for chunk in chunks:
         env = {"VERIF_E4_KIND": kind, "VERIF_E4_N": n, "VERIF_E4_SEED": ctx.seed if kind != "c32" else 0,
                "VERIF_E4_BATCH": ",".join(map(str, chunk)), "VERIF_E4_FUEL": fuel}
         if region:
